@@ -127,8 +127,8 @@ func (e *Exec) pkgInitAllowed(path string) bool {
 
 var globalOverrides = map[string]func(e *Exec, c *Cell){
 	repoMod + "/lmdbenv/strategy.isLittleEndian": func(e *Exec, c *Cell) { c.V = e.ts.True },
-	"context.Canceled":         func(e *Exec, c *Cell) { c.V = e.newStubError("context canceled", nil) },
-	"context.DeadlineExceeded": func(e *Exec, c *Cell) { c.V = e.newStubError("context deadline exceeded", nil) },
+	"context.Canceled":                           func(e *Exec, c *Cell) { c.V = e.newStubError("context canceled", nil) },
+	"context.DeadlineExceeded":                   func(e *Exec, c *Cell) { c.V = e.newStubError("context deadline exceeded", nil) },
 }
 
 func fnPkgPath(fn *ssa.Function) string {
@@ -234,12 +234,12 @@ var stubFuncs = map[string]bool{
 	"(*sync.Mutex).Lock": true, "(*sync.Mutex).Unlock": true,
 	"(*sync.RWMutex).Lock": true, "(*sync.RWMutex).Unlock": true, "(*sync.RWMutex).RLock": true, "(*sync.RWMutex).RUnlock": true,
 	"(*sync.WaitGroup).Add": true, "(*sync.WaitGroup).Done": true, "(*sync.WaitGroup).Wait": true,
-	"time.Sleep": true,
-	repoMod + "/snapshot.ShortHash": true,
-	"(" + repoMod + "/snapshot.NameInfo).ShortHash": true,
-	repoMod + "/lmdbenv/strategy.init#1": true,
-	repoMod + "/utils.GC": true,
-	repoMod + "/utils.DisplayASCII": true,
+	"time.Sleep":                                             true,
+	repoMod + "/snapshot.ShortHash":                          true,
+	"(" + repoMod + "/snapshot.NameInfo).ShortHash":          true,
+	repoMod + "/lmdbenv/strategy.init#1":                     true,
+	repoMod + "/utils.GC":                                    true,
+	repoMod + "/utils.DisplayASCII":                          true,
 	"(*" + repoMod + "/syncer.NativeIterator).logDebugValue": true,
 }
 
@@ -280,7 +280,6 @@ func resolveRedirects(prog *ssa.Program, table map[string]string) error {
 }
 
 // ---------- thread-mode placeholders (sequential mode) ----------
-
 
 func (e *Exec) goStmt(fr *frame, ins *ssa.Go) {
 	if e.cfg.ThreadMode {
